@@ -11,6 +11,10 @@ from .. import absx, facts, ir, report, tsrules, il
 
 class ResultAdapter(tsrules.Adapter):
     observers = ('has_value', 'has_error', 'error')
+    alias_own_element = True
+
+    def element_types(self):
+        return getattr(self, 'elem_types', ())
     derived = {'operator bool': lambda obs: obs[0]}
 
     def __init__(self, enum=None):
@@ -88,6 +92,10 @@ class ResultVoidAdapter(ResultAdapter):
 
 class OptionalAdapter(tsrules.Adapter):
     observers = ('empty',)
+    alias_own_element = True
+
+    def element_types(self):
+        return getattr(self, 'elem_types', ())
     empty_obs = (1,)
     derived = {'operator bool': lambda obs: not obs[0]}
 
@@ -106,6 +114,11 @@ class OptionalAdapter(tsrules.Adapter):
         if single is not None and single[0] == 'elem' and (fn.get('ctor') or n == 'operator=') and after != (0,):
             out.append('assigning/constructing from a value leaves the Optional empty')
         return out
+
+
+def encrules_split(q):
+    from .. import encrules
+    return encrules.split_args(q[q.index('<') + 1:-1])
 
 
 def pick_class(db, rect, pred):
@@ -139,6 +152,11 @@ def typestate(chk, db, prefix=''):
     if len(targets) < 8:
         chk.unanalysable(prefix + 'L', 'nop/types', 'Result/Optional instances over a non-trivial element type not found in the probes')
     for q, ad, label in targets:
+        # the element type of the instantiation (last template argument), for the self-aliasing argument choice
+        try:
+            ad.elem_types = (encrules_split(q)[-1],)
+        except Exception:
+            ad.elem_types = ()
         try:
             ex = tsrules.Explorer(db, q, ad, label).run()
         except absx.Unsupported as e:
